@@ -442,7 +442,7 @@ every binary32 pattern, by class:
 * for `0 ≤ x ≤ 1`, with `x = m·2^-k` (`m = mant x`, `k = -expo x`): `norm = ⌊(m·65534 + 2^(k-1)) /
   2^k⌋ = ⌊v·65534 + 1/2⌋` in exact integer resp. rational arithmetic.  The widening is exact, the
   product of a 24-bit and a 16-bit significand has at most 40 bits, the sum with 0.5 has at most
-  53 bits when `k ≤ 53`; for `k > 53` (`x < 2^-29`, product below `2^-14`) the sum IS rounded,
+  53 bits when `k ≤ 53`; for `k > 53` (`x < 2^-30`, product below `2^-14`) the sum IS rounded,
   stays below 0.75, and the cast gives 0 = the floor of the exact sum;
 * in every case `norm = Quant.sq 16 (uvalue x)`, C12's real-number quantiser
   `⌊clamp01(v)·65534 + 1/2⌋` of the value (`uvalue`: NaN ↦ 1, `+∞ ↦ 2`, `-∞ ↦ -1`, finite ↦ value). -/
